@@ -124,7 +124,8 @@ Fixpoint rm_reader (t : nat) (l : list (nat * N)) : list (nat * N) :=
 Definition release_all (ids live : list N) : list N := fold_left (fun a x => rm1 x a) ids live.
 
 (* ---------------------------------------------------------------- calls and steps *)
-Inductive gcall := GCommit | GDrop (sp t : N) | GBeginRead | GEndRead.
+Inductive gcall := GCommit | GDrop (sp t : N) | GBeginRead | GEndRead
+| GDropRest (sp t : N).   (* the second section of a Savepoint::drop whose first section ran during an earlier commit *)
 Inductive gstep :=
 | GOldestLive1 | GHorizon | GOldestSp | GCommitBegin | GUClear | GPublish | GClearPending | GInvalidate
 | GOldestLive2 | GEpiHorizon | GUExtend | GNdPublish | GReserveId | GRegisterNd | GEndWrite      (* committer *)
@@ -147,6 +148,7 @@ Definition gsteps_of (c : gcall) : list gstep :=
   | GDrop _ _ => [GDeallocSp; GDeallocRead]
   | GBeginRead => [GRegisterRead; GReadRegistered]
   | GEndRead => [GDeallocReadTx]
+  | GDropRest _ _ => [GDeallocRead]
   end.
 
 (* free the DATA_FREED records below h (extract_from_if(..(h,0))): process_freed_pages / the epilogue *)
@@ -209,6 +211,11 @@ Definition gexec (cf : cfg) (t : nat) (c : gcall) (x : gstep) (s : cst) : option
         else Some (set_mid (tx :: g_mid s) (set_valid (remove_sp sp tx (g_valid s)) s), [])
       else None
     | GDrop sp tx, GDeallocRead =>
+      if memN tx (g_mid s) then
+        if swap_drop cf then Some (set_mid (rm1 tx (g_mid s)) (set_valid (remove_sp sp tx (g_valid s)) s), [])
+        else Some (set_mid (rm1 tx (g_mid s)) (set_live (rm1 tx (g_live s)) s), [])
+      else None
+    | GDropRest sp tx, GDeallocRead =>
       if memN tx (g_mid s) then
         if swap_drop cf then Some (set_mid (rm1 tx (g_mid s)) (set_valid (remove_sp sp tx (g_valid s)) s), [])
         else Some (set_mid (rm1 tx (g_mid s)) (set_live (rm1 tx (g_live s)) s), [])
@@ -277,11 +284,12 @@ Definition reach_ok_b (s0 s : cst) : bool :=
 (* ---------------------------------------------------------------- well-formed initial states *)
 Fixpoint mono (v : list (N * N)) : Prop :=
   match v with [] => True | e :: r => (forall e', In e' r -> snd e <= snd e') /\ mono r end.
+Definition cntN (x : N) (l : list N) : nat := count_occ N.eq_dec l x.
 Record wf_init (s : cst) : Prop := {
   wf_pc : g_pc s = 0;
   wf_locals : g_readers s = [] /\ g_mid s = [] /\ g_gone_main s = [] /\ g_gone_epi s = [];
-  (* every pin has an owner: a pending non-durable commit, a valid savepoint, or somebody who keeps it *)
-  wf_pins : g_live s = map snd (g_pending s) ++ map snd (g_valid s) ++ g_held s;
+  (* every pin has an owner: a pending non-durable commit, a valid savepoint, or somebody who keeps it (as multisets) *)
+  wf_pins : forall x, cntN x (g_live s) = (cntN x (map snd (g_pending s)) + cntN x (map snd (g_valid s)) + cntN x (g_held s))%nat;
   (* savepoint ids and the transaction ids they pin grow together *)
   wf_mono : mono (g_valid s);
   (* a page is queued for freeing at most once *)
@@ -290,12 +298,73 @@ Record wf_init (s : cst) : Prop := {
   wf_cross : forall A pa F pf p, In (A, pa) (g_alloc s) -> In (F, pf) (g_freed s) -> In p pa -> In p pf -> A < F;
   (* records are those of committed transactions, or the committer's own *)
   wf_keys : forall F pf, In (F, pf) (g_freed s) -> F <= g_last s \/ F = g_txid s;
+  wf_akeys : forall A pa, In (A, pa) (g_alloc s) -> A <= g_last s \/ A = g_txid s;
   wf_live : forall r, In r (g_live s) -> r <= g_last s;
   wf_last : g_last s < g_txid s;
   (* both tables name allocated pages *)
   wf_freed_alloc : forall F pf p, In (F, pf) (g_freed s) -> In p pf -> In p (g_allocated s);
   wf_alloc_alloc : alloc_ok s
 }.
+
+(* ---------------------------------------------------------------- successive transactions *)
+(* what a commit needs to find when it starts, in general: as wf_init, but Savepoint::drop calls may be between their two
+   sections (g_mid) and reader threads may hold read transactions (g_readers) -- every pin still has exactly one owner *)
+Record wf_start (s : cst) : Prop := {
+  ws_pc : g_pc s = 0;
+  ws_gone : g_gone_main s = [] /\ g_gone_epi s = [];
+  ws_pins : forall x, cntN x (g_live s) =
+              (cntN x (map snd (g_pending s)) + cntN x (map snd (g_valid s)) + cntN x (g_mid s) +
+               cntN x (map snd (g_readers s)) + cntN x (g_held s))%nat;
+  ws_mono : mono (g_valid s);
+  ws_nodup : NoDup (pages_of (g_freed s));
+  ws_cross : forall A pa F pf p, In (A, pa) (g_alloc s) -> In (F, pf) (g_freed s) -> In p pa -> In p pf -> A < F;
+  ws_keys : forall F pf, In (F, pf) (g_freed s) -> F <= g_last s \/ F = g_txid s;
+  ws_akeys : forall A pa, In (A, pa) (g_alloc s) -> A <= g_last s \/ A = g_txid s;
+  ws_live : forall r, In r (g_live s) -> r <= g_last s;
+  ws_last : g_last s < g_txid s;
+  ws_freed_alloc : forall F pf p, In (F, pf) (g_freed s) -> In p pf -> In p (g_allocated s);
+  ws_alloc_alloc : alloc_ok s
+}.
+
+(* the NEXT write transaction, seen from the commit model: its id, the committed pages its table phase unlinked (its
+   DATA_FREED record), the pages it allocated and still holds at commit (`n_fresh`) and those of them its
+   DATA_ALLOCATED record names *)
+Record nextp := { n_txid : N; n_freed : list N; n_alloc : list N; n_fresh : list N }.
+
+(* the state the next commit starts from: the end state of this commit with the next transaction's two records in the
+   tables and its pages allocated; new id, pc = 0, the committer's locals and the observations cleared.  The tracker,
+   the droppers between their sections and the reader threads' read transactions carry over. *)
+Definition gnext (s : cst) (n : nextp) : cst :=
+  {| g_txid := n_txid n; g_last := g_last s; g_live := g_live s; g_valid := g_valid s; g_pending := g_pending s;
+     g_held := g_held s; g_freed := g_freed s ++ [(n_txid n, n_freed n)]; g_alloc := g_alloc s ++ [(n_txid n, n_alloc n)];
+     g_allocated := g_allocated s ++ n_fresh n; g_pc := 0; g_h1 := 0; g_sph := None; g_eh := 0;
+     g_readers := g_readers s; g_mid := g_mid s; g_gone_main := []; g_gone_epi := []; g_purged := [] |}.
+
+(* what the next transaction's table phase guarantees (C06 / C11 / C14: a page is unlinked once, it was allocated and
+   committed before; fresh pages were free): *)
+Record next_ok (s : cst) (n : nextp) : Prop := {
+  no_txid : g_last s < n_txid n;
+  no_nodup : NoDup (n_freed n);
+  no_freed : forall p, In p (n_freed n) -> In p (g_allocated s) /\ ~ In p (pages_of (g_freed s));
+  no_fresh : forall p, In p (n_fresh n) -> ~ In p (g_allocated s);
+  no_alloc : forall p, In p (n_alloc n) -> In p (n_fresh n)
+}.
+
+(* a chain of transactions: (threads, schedule, the next transaction) each; the state each commit starts from *)
+Definition txn := (list (list gcall) * list nat * nextp)%type.
+Fixpoint chain_starts (s : cst) (txs : list txn) : list cst :=
+  match txs with
+  | [] => []
+  | (progs, sched, n) :: r => s :: chain_starts (gnext (gfinal faithful sched progs s) n) r
+  end.
+(* every commit of the chain runs to its end under its schedule, and the next transaction is well-behaved *)
+Fixpoint chain_ok (s : cst) (txs : list txn) : Prop :=
+  match txs with
+  | [] => True
+  | (progs, sched, n) :: r =>
+    let e := gfinal faithful sched progs s in
+    g_pc e = 15 /\ next_ok e n /\ chain_ok (gnext e n) r
+  end.
 
 (* ---------------------------------------------------------------- lock order (lock_order_acyclic) *)
 (* the same as a checker (run on every initial state taken from the implementation; sound: CommitGapP.wf_init_b_sound) *)
@@ -310,6 +379,7 @@ Definition wf_init_b (s : cst) : bool :=
   forallb (fun a => forallb (fun f => forallb (fun p => if memN p (snd f) then N.ltb (fst a) (fst f) else true) (snd a))
                             (g_freed s)) (g_alloc s) &&
   forallb (fun f => N.leb (fst f) (g_last s) || N.eqb (fst f) (g_txid s)) (g_freed s) &&
+  forallb (fun a => N.leb (fst a) (g_last s) || N.eqb (fst a) (g_txid s)) (g_alloc s) &&
   forallb (fun r => N.leb r (g_last s)) (g_live s) && N.ltb (g_last s) (g_txid s) &&
   forallb (fun f => forallb (fun p => memN p (g_allocated s)) (snd f)) (g_freed s) && alloc_ok_b s.
 
